@@ -34,8 +34,13 @@ DIRS = ["", "", "src", "src/core", "docs", "a", "b", "b/b", "a/b", "dir with spa
 STEMS = ["main", "util", "x y", "mod.test", "readme", "b", "a", "gen", "data.gen", "w"]
 
 
+def _ext(path):
+    base = path.rsplit("/", 1)[-1]
+    return "sh" if base in ("Makefile", "makefile") else base.rsplit(".", 1)[-1]     # `#` comments like a shell file
+
+
 def healthy(path, name):
-    ext = path.rsplit(".", 1)[-1]
+    ext = _ext(path)
     if ext == "md":
         return '\n[//]: # (<block name="%s" line-count="<1">)\n\nword\n\nmore\n\n[//]: # (</block>)\n' % name
     o = OPENER[ext]
@@ -43,7 +48,7 @@ def healthy(path, name):
 
 
 def poisoned(path, r, utf8_only=False):
-    ext = path.rsplit(".", 1)[-1]
+    ext = _ext(path)
     kind = r.randrange(1, 3) if utf8_only else r.randrange(3)
     if kind == 0:
         return b"\xff\xfe\xfa <block name=\"poison\">\n"
@@ -108,6 +113,8 @@ def one_case(ctx, r, desc):
         name = "%s.%s" % (r.choice(STEMS), r.choice(EXTS))
         if r.random() < 0.08:
             name = "." + name
+        elif r.random() < 0.06:
+            name = r.choice(["Makefile", "makefile"])     # registered by whole name: a path without any dot when the directory has none
         paths.add((d + "/" if d else "") + name)
     paths = sorted(paths)
     gitignore = r.sample(["gen/", "*.gen.py", "/rooted", "src/gen/", "*.gen.rs"], r.randint(0, 3))
@@ -138,7 +145,7 @@ def one_case(ctx, r, desc):
         if diff_files and r.random() < 0.3:
             rp = r.choice(diff_files)
             rd = os.path.dirname(rp) if r.random() < 0.6 else r.choice(["", "src", "b", "a/b", "new dir"])
-            rq = (rd + "/" if rd else "") + "moved_%d.%s" % (r.randrange(100), rp.rsplit(".", 1)[-1])
+            rq = (rd + "/" if rd else "") + "moved_%d.%s" % (r.randrange(100), _ext(rp))
             if rq not in paths:
                 ren = (rp, rq)
         fin = (lambda x: ren[1] if ren and x == ren[0] else x)
@@ -176,7 +183,7 @@ def one_case(ctx, r, desc):
             for p in r.sample(sorted(walkable_base), min(len(walkable_base), r.randint(1, 2))):
                 if p in diff_base:
                     continue      # git diffs a link's target text, not the content
-                store = ".lnk/%d.%s" % (len(links), p.rsplit(".", 1)[-1])
+                store = ".lnk/%d.%s" % (len(links), _ext(p))
                 run.write_files(root, {store: files[p]})
                 os.unlink(os.path.join(root, p))
                 os.symlink(os.path.relpath(os.path.join(root, store), os.path.dirname(os.path.join(root, p))), os.path.join(root, p))
